@@ -1,5 +1,6 @@
 import AtreeModel
 import AtreeModel.Replay.Array
+import AtreeModel.Replay.Storage
 /-
   atree_model: replays a trace (stdin) on the Lean model and compares every line the
   implementation produced with the model's own rendering.
@@ -32,6 +33,12 @@ partial def loopArray (h : IO.FS.Stream) (s : ArrState) (n : Nat) : IO ArrState 
   let line := (line.dropRightWhile (fun c => c == '\n' || c == '\r'))
   loopArray h (s.stepLine line n) (n + 1)
 
+partial def loopStorage (h : IO.FS.Stream) (s : StorState) (n : Nat) : IO StorState := do
+  let line ← h.getLine
+  if line.isEmpty then return s
+  let line := (line.dropRightWhile (fun c => c == '\n' || c == '\r'))
+  loopStorage h (s.stepLine line n) (n + 1)
+
 def main (args : List String) : IO UInt32 := do
   let stdin ← IO.getStdin
   match args with
@@ -40,6 +47,11 @@ def main (args : List String) : IO UInt32 := do
     let s := if s.pending.isEmpty then s else s.note s!"end of trace: model expected further lines: {s.pending}"
     IO.println ("RESULT " ++ reportJson "array" s.rep)
     return (if s.rep.nMismatch == 0 then 0 else 1)
+  | ["storage"] =>
+    let s ← loopStorage stdin {} 1
+    let s := if s.pending.isEmpty then s else s.note s!"end of trace: model expected further lines: {s.pending}"
+    IO.println ("RESULT " ++ reportJson "storage" s.rep)
+    return (if s.rep.nMismatch == 0 then 0 else 1)
   | _ =>
-    IO.eprintln "usage: atree_model <array> < trace"
+    IO.eprintln "usage: atree_model <array|storage> < trace"
     return 2
